@@ -31,6 +31,8 @@ def build_late(recipe, env):
         op = tuple(op)
         if op[0] == "her":
             c.herald(op[1], op[2], op[3])
+        elif op[0] == "her1":
+            c.herald(op[1], op[2])
         elif op[0] == "add":
             c.add(make_sub(op[1], env)[0], op[2], group=op[3])
         else:
